@@ -123,6 +123,12 @@ def hashToField (H : Bytes → Bytes) (bLen : Nat) (p modBits m secParam N : Nat
 
 /-! ## PART 1b — the maps (field-generic) -/
 
+/-- `parity` on the coordinate list: `find(|x| !x.is_zero()).is_some_and(|x| x.into_bigint().is_odd())` -/
+def parityCoords (cs : List Nat) : Bool :=
+  match cs.find? (fun x => x != 0) with
+  | some x => x % 2 == 1
+  | none => false
+
 section maps
 variable {F : Type} [Add F] [Sub F] [Mul F] [Neg F] [Zero F] [One F] [Inv F] [Div F] [DecidableEq F]
 
@@ -130,10 +136,7 @@ variable {F : Type} [Add F] [Sub F] [Mul F] [Neg F] [Zero F] [One F] [Inv F] [Di
 def divP (x y : F) : Outcome F := if y = 0 then .panic else .ok (x / y)
 
 /-- `parity(element)`: oddness of the first non-zero base-prime-field coordinate, `false` for zero -/
-def parity (X : FieldX F) (e : F) : Bool :=
-  match (X.coords e).find? (fun x => x != 0) with
-  | some x => x % 2 == 1
-  | none => false
+def parity (X : FieldX F) (e : F) : Bool := parityCoords (X.coords e)
 
 /-- `SWUMap::<P>::map_to_curve(element)` with `a = P::COEFF_A`, `b = P::COEFF_B`, `zeta = P::ZETA`.
     Second component: the branch taken (for the coverage table). -/
@@ -472,10 +475,10 @@ def hashToField (H : Bytes → Bytes) (bInBytes sInBytes : Nat) (p m k : Nat) (d
 /-- §4.1 `sgn0(x)` for `x = (x_1, …, x_m)` -/
 def sgn0 (xs : List Nat) : Nat :=
   let (sign, _) := xs.foldl (fun (sz : Nat × Nat) x_i =>
-      let (sign, zero) := sz
+      let (sign, zeroAcc) := sz
       let sign_i := x_i % 2
       let zero_i := if x_i == 0 then 1 else 0
-      (sign ||| (zero &&& sign_i), zero &&& zero_i)) (0, 1)
+      (sign ||| (zeroAcc &&& sign_i), zeroAcc &&& zero_i)) (0, 1)
   sign
 
 section maps
@@ -505,6 +508,21 @@ def sswu (X : FieldX F) (A B Z : F) (u : F) : F × F :=
                 else (x2, sqrtOr0 X gx2)                              -- 8
   let y := if sgn0F X u != sgn0F X y then -y else y                   -- 9
   (x, y)                                                              -- 10
+
+/-- `gx1` of steps 1–4 of §6.6.2 (used to recognise the inputs with `gx1 = 0`) -/
+def sswuGx1 (A B Z : F) (u : F) : F :=
+  let u2 := u * u
+  let tv1 := inv0 (Z * Z * (u2 * u2) + Z * u2)
+  let x1 := (-B / A) * (1 + tv1)
+  let x1 := if tv1 = 0 then B / (Z * A) else x1
+  x1 * x1 * x1 + A * x1 + B
+
+/-- the conditions of §6.6.2 on the parameters: `A ≠ 0`, `B ≠ 0`, `Z` non-square (criterion 1/2), and
+    criterion 4 `g(B / (Z·A))` is square — here a *non-zero* square, because the code under test treats 0 as a
+    non-square.  (Criterion 3, `g(x) − Z` irreducible, only matters for the distribution of the outputs.) -/
+def sswuParamsOk (X : FieldX F) (A B Z : F) : Bool :=
+  A != 0 && B != 0 && !(isSquare X Z) &&
+    (let x0 := B / (Z * A); X.isQR (x0 * x0 * x0 + A * x0 + B))
 
 /-- plain polynomial evaluation `Σ k_i x^i` -/
 def evalPoly (ks : List F) (x : F) : F :=
